@@ -988,9 +988,9 @@ MUTANTS += [
       edits=[(CP, '\tif err := validateManifest(m); err != nil {\n\t\treturn err\n\t}\n\tif err := writeFullControl(s, []byte(controlMagic), "control magic"); err != nil {\n\t\treturn fmt.Errorf("failed to write control magic: %w", err)\n\t}\n', '\tif err := writeFullControl(s, []byte(controlMagic), "control magic"); err != nil {\n\t\treturn fmt.Errorf("failed to write control magic: %w", err)\n\t}\n\tif err := validateManifest(m); err != nil {\n\t\treturn err\n\t}\n')]),
  # F52
  dict(id='F52-undo-ws-url-normalised', props=['C16'], expect='R-URL-NORMALISE/url-normalise/app.buildWebSocketURL',
-      edits=[(WSF, '\tif !strings.HasPrefix(strings.ToLower(serverURL), "http") {\n\t\tserverURL = "http://" + serverURL\n\t}\n', '')]),
+      edits=[(WSF, '\tif l := strings.ToLower(serverURL); !strings.HasPrefix(l, "http://") && !strings.HasPrefix(l, "https://") {\n\t\tserverURL = "http://" + serverURL\n\t}\n', '')]),
  dict(id='F52-benign-ws-url-prefix-slice-form', props=['C16'], expect='SILENT',
-      edits=[(WSF, '\tif !strings.HasPrefix(strings.ToLower(serverURL), "http") {\n', '\tif len(serverURL) < 4 || !strings.EqualFold(serverURL[:4], "http") {\n')]),
+      edits=[(WSF, '\tif l := strings.ToLower(serverURL); !strings.HasPrefix(l, "http://") && !strings.HasPrefix(l, "https://") {\n', '\tif !strings.Contains(serverURL, "://") || !strings.EqualFold(serverURL[:4], "http") {\n')]),
  # F53
  dict(id='F53-undo-resend-needs-bit', props=['C17'], expect='R-RESEND-ONCE/resend-once/',
       edits=[(MS, _F53_COND, _F53_COND.replace(' && bitmap.Get(int(vChunk))', ''))]),
